@@ -83,7 +83,7 @@ func VH_C01_sync_then_events() {
 	zz.Go("informer", func() {
 		for i := 1; i <= k; i++ {
 			if i == 1 && firstAsAdded {
-				ei.OnAdd(vhC01Object(i), false)
+				ei.OnAdd(vhC01Object(i), zz.Bool("added_is_in_initial_list"))
 			} else {
 				ei.OnUpdate(nil, vhC01Object(i))
 			}
